@@ -356,7 +356,7 @@ const BOARD_POOL: [&str; 8] = ["7h8h9c", "AsAh2c", "KhKdKc", "2h3d4c", "QsJsTs",
 
 fn run_example(bin: &str, ncpus: Option<u32>, board: &str, ranges: &[String]) -> Result<(u64, BTreeMap<String, f64>), String> {
     let mut cmd = std::process::Command::new(bin);
-    cmd.arg(board).args(ranges).stderr(std::process::Stdio::null());
+    cmd.arg(board).args(ranges).stderr(std::process::Stdio::piped());
     if let Some(k) = ncpus {
         let so = std::env::var("FAKECPUS_SO").map_err(|_| "FAKECPUS_SO not set (run through ./check)".to_string())?;
         cmd.env("LD_PRELOAD", so).env("FAKE_NCPUS", k.to_string());
@@ -364,7 +364,11 @@ fn run_example(bin: &str, ncpus: Option<u32>, board: &str, ranges: &[String]) ->
     let out = cmd.output().map_err(|e| format!("{bin}: {e}"))?;
     let text = String::from_utf8_lossy(&out.stdout);
     if !out.status.success() {
-        return Err(format!("exited with {}", out.status));
+        let err = String::from_utf8_lossy(&out.stderr);
+        if err.contains("failed to spawn thread") || err.contains("Resource temporarily unavailable") || err.contains("Cannot allocate memory") {
+            return Err("ENV: this sandbox could not give the example that many threads".to_string());
+        }
+        return Err(format!("exited with {} ({})", out.status, err.lines().next().unwrap_or("").chars().take(160).collect::<String>()));
     }
     let mut mat: Option<u64> = None;
     let mut eq: BTreeMap<String, f64> = BTreeMap::new();
@@ -399,6 +403,8 @@ fn machine_case(n: u32, board: &str, ranges: &[String]) -> Result<Option<(String
         Err(_) => return Ok(None), // the single-threaded run itself fails on this input: not C16's business
     };
     match run_example(&multi, Some(n + 1), board, ranges) {
+        // an environment limit (thread count) is not a verdict on the property
+        Err(e) if e.starts_with("ENV:") => Ok(None),
         Err(e) => Ok(Some(("machine_example_failed".into(), format!("multi-thread example on {} CPUs ({n} workers): {e}", n + 1)))),
         Ok((mm, me)) => {
             if mm != sm {
@@ -892,7 +898,7 @@ pub fn run(tier: &str) -> i32 {
     // the real example binaries on simulated machines (LD_PRELOAD CPU-count shim)
     {
         let nm = machine_plan(quick).len() as u64;
-        let chunks = run_batch("C16", "machine", nm, 4, tier, false);
+        let chunks = run_batch_par("C16", "machine", nm, 4, tier, false, 4);
         for (ci, ch) in chunks.iter().enumerate() {
             let chunk_first = ci as u64 * 4;
             for c in &ch.cases {
@@ -916,7 +922,7 @@ pub fn run(tier: &str) -> i32 {
     // native supplement: the example's n real threads, concurrently
     {
         let nn = native_plan(quick).len() as u64;
-        let chunks = run_batch("C16", "native", nn, 4, tier, false);
+        let chunks = run_batch_par("C16", "native", nn, 4, tier, false, 6);
         for (ci, ch) in chunks.iter().enumerate() {
             let chunk_first = ci as u64 * 4;
             if let Some((i, how)) = &ch.died {
